@@ -214,7 +214,7 @@ def _is_instance(obj: Any, type_: Any, type_vars: Dict[TypeVar_, Any], context: 
         return _is_instance(obj=obj, type_=resolved, type_vars=type_vars, context=context)
 
     if _is_type_new_type(type_):
-        if isinstance(type_.__supertype__, type):
+        if isinstance(type_.__supertype__, type) and type_.__supertype__ is not Any:  # Any is a class since 3.11
             return isinstance(obj, type_.__supertype__)
 
         return _is_instance(obj=obj, type_=type_.__supertype__, type_vars=type_vars, context=context)  # NewType of a NewType or of a generic
